@@ -7,7 +7,6 @@ From Shroud Require Import Base.Ustr Model.Splicer Model.Lexer Model.Expr Model.
 Import ListNotations.
 
 (* ---- the additional conditions on the words: what the lexer must see ---- *)
-Definition spec_wordb (w : ustr) : bool := ustr_in w (map cp type_specifier).
 Definition nameb (n : ustr) : bool := wordb n && match classify_id n with ID => true | _ => false end.
 
 Fixpoint text_dtorb (d : declarator) : bool :=
@@ -16,10 +15,10 @@ Fixpoint text_dtorb (d : declarator) : bool :=
 
 Fixpoint text_fragment (d : decl) : bool :=
   let '(Decl spec _ _ _ _ dt params _ _ _ _ _) := d in
-  forallb spec_wordb spec && match dt with Some x => text_dtorb x | None => true end &&
+  forallb (fun w => spec_wordb w || nameb w) spec && match dt with Some x => text_dtorb x | None => true end &&
   match params with Some ps => forallb text_fragment ps | None => true end.
 
-Lemma spec_word_ok w : spec_wordb w = true -> wordb w = true /\ word_tok w = spec_tok w.
+Lemma spec_word_ok w : spec_wordb w = true -> wordb w = true /\ word_tok w = {| tk := TYPE_SPECIFIER; tv := w |}.
 Proof.
   unfold spec_wordb, ustr_in. cbn [map existsb type_specifier]. intros H.
   repeat (apply orb_true_iff in H; destruct H as [H | H]; [apply Proof.Splicer.ueqb_eq in H; subst; split; reflexivity|]).
@@ -30,6 +29,14 @@ Lemma name_ok n : nameb n = true -> wordb n = true /\ word_tok n = {| tk := ID; 
 Proof.
   unfold nameb. intros H. apply andb_true_iff in H. destruct H as [Hw Hk]. split; [exact Hw|].
   unfold word_tok. destruct (classify_id n); try discriminate. reflexivity.
+Qed.
+
+(* a word of the type: a built-in word or a type name, lexed as the token it stands for *)
+Lemma type_word_ok w : spec_wordb w || nameb w = true -> wordb w = true /\ word_tok w = spec_tok w.
+Proof.
+  intros H. unfold spec_tok. destruct (spec_wordb w) eqn:Ew.
+  - apply spec_word_ok; exact Ew.
+  - cbn [orb] in H. apply name_ok; exact H.
 Qed.
 
 (* ---- pieces ---- *)
@@ -44,10 +51,10 @@ Qed.
 Lemma weak_space_word w : wordb w = true -> Weak (32%N :: w) [word_tok w].
 Proof. intros Hw. change (32%N :: w) with ([32%N] ++ w). change [word_tok w] with ([] ++ [word_tok w]). apply any_weak_app; [apply any_space | apply weak_word; exact Hw]. Qed.
 
-Lemma weak_spec_words : forall spec, spec <> [] -> forallb spec_wordb spec = true -> Weak (join_with sp spec) (map spec_tok spec).
+Lemma weak_spec_words : forall spec, spec <> [] -> forallb (fun w => spec_wordb w || nameb w) spec = true -> Weak (join_with sp spec) (map spec_tok spec).
 Proof.
   induction spec as [|w spec IH]; [contradiction|]. intros _ H. cbn [forallb] in H. apply andb_true_iff in H. destruct H as [Hw Hs].
-  destruct (spec_word_ok w Hw) as (Hwb & Et). destruct spec as [|w2 spec'].
+  destruct (type_word_ok w Hw) as (Hwb & Et). destruct spec as [|w2 spec'].
   - cbn [join_with map]. rewrite <- Et. apply weak_word; exact Hwb.
   - change (join_with sp (w :: w2 :: spec')) with (w ++ sp ++ join_with sp (w2 :: spec')).
     change (map spec_tok (w :: w2 :: spec')) with ([spec_tok w] ++ map spec_tok (w2 :: spec')).
@@ -57,7 +64,7 @@ Qed.
 Definition hdr_text (cst vol : bool) (spec : list ustr) : ustr :=
   (if cst then cp "const " else []) ++ (if vol then cp "volatile " else []) ++ join_with sp spec.
 
-Lemma weak_hdr cst vol spec : spec <> [] -> forallb spec_wordb spec = true -> Weak (hdr_text cst vol spec) (head_toks cst vol spec).
+Lemma weak_hdr cst vol spec : spec <> [] -> forallb (fun w => spec_wordb w || nameb w) spec = true -> Weak (hdr_text cst vol spec) (head_toks cst vol spec).
 Proof.
   intros Hne Hs. unfold hdr_text, head_toks.
   assert (Hc : Any (cp "const ") [tok_of TYPE_QUALIFIER "const"]) by (apply (any_word_space (cp "const")); reflexivity).
@@ -183,7 +190,7 @@ Lemma text_of_declaration c : forall n d, dsize d < n -> in_fragment c d = true 
 Proof.
   induction n as [|n IH]; intros d Hn Hfr Htx; [lia|].
   destruct d as [spec st cst vol tm dt params arr at_ init ta fc].
-  destruct (in_fragment_fields _ _ _ _ _ _ _ _ _ _ _ _ _ Hfr) as (Hs & -> & -> & -> & -> & -> & Htm & Hkn & Hdt & Hpar).
+  destruct (in_fragment_fields _ _ _ _ _ _ _ _ _ _ _ _ _ Hfr) as (Hs & -> & -> & -> & -> & -> & Hok & Hdt & Hpar).
   cbn [text_fragment] in Htx. apply andb_true_iff in Htx. destruct Htx as [Htx Htp]. apply andb_true_iff in Htx. destruct Htx as [Hsw Htd].
   rewrite render_decl_eq, decl_toks_eq. cbn [dsize] in Hn.
   pose proof (weak_hdr cst vol spec Hs Hsw) as Whdr.
@@ -261,7 +268,7 @@ Lemma dsize_le_toks c : forall n d, dsize d < n -> in_fragment c d = true -> dsi
 Proof.
   induction n as [|n IH]; intros d Hn Hfr; [lia|].
   destruct d as [spec st cst vol tm dt params arr at_ init ta fc].
-  destruct (in_fragment_fields _ _ _ _ _ _ _ _ _ _ _ _ _ Hfr) as (Hs & -> & -> & -> & -> & -> & Htm & Hkn & Hdt & Hpar).
+  destruct (in_fragment_fields _ _ _ _ _ _ _ _ _ _ _ _ _ Hfr) as (Hs & -> & -> & -> & -> & -> & Hok & Hdt & Hpar).
   rewrite decl_toks_eq, !app_length. cbn [dsize] in *.
   assert (Hh : List.length spec <= List.length (head_toks cst vol spec)).
   { unfold head_toks. rewrite !app_length, map_length. lia. }
